@@ -210,7 +210,7 @@ def a5(ctx, prog):
         pm[prev_d], pm[idxs[0]], pm[bins[0]] = "#prev", "#idx", "#bin"
         cs = rl.conjuncts(f, f.nodes[loops[0]]["cond"])
         same_bin = [c for c in cs if rl.rel(f, c, True, rl.is_local(f, bins[0]), lambda j: rl.canon(f, j, pm) == "mi_bin(#prev->block_size)") == "=="]
-        above0 = [c for c in cs if rl.rel(f, c, True, rl.is_local(f, prev_d), lambda j: rl.canon(f, j, pm).replace(" ", "") == "&$0->pages[0]") == ">"]
+        above0 = [c for c in cs if rl.rel(f, c, True, rl.is_local(f, prev_d), lambda j: rl.canon(f, j, pm).replace(" ", "") == "$0->pages") == ">"]
         ok = len(cs) == 2 and len(same_bin) == 1 and len(above0) == 1
     ctx.check(R, ok, f.where(), "start-slot search: while (bin == mi_bin(prev->block_size) && prev > &heap->pages[0]) prev--", key="C16.A5:loop")
     fl = [L for L in rl.counted_loops(f) if len(idxs) == 1 and rl.var_of(f, L["bound"]) == idxs[0]]
